@@ -100,7 +100,8 @@ _ANCHOR = "        leader_position = np.array(self._best_agent.position)\n"
 _REFB = ("        def refine_best_solution(a: Agent, tt: TaskType) -> Agent:\n            if tt == TaskType.MIN:\n                return a\n"
          "            # return the agent with the position multiplied by -1\n            return a.model_copy(update={\"cost\": -a.cost})")
 VARIANTS = [
-    V("sign-slip-in-fcn", _A, "else -1 * self._task.solve(x)", "else 1 * self._task.solve(x)", "C02.SGN-fcn"),
+    V("sign-slip-in-fcn", _A, "isinstance(value, list) else -value", "isinstance(value, list) else value", "C02.SGN-fcn"),
+    V("sign-slip-list-branch-only", _A, "return [-v for v in value] if isinstance", "return [v for v in value] if isinstance", "C02.SGN-fcn"),
     V("restore-sign-in-population-only", _M, _REFB,
       "        def refine_best_solution(a: Agent, tt: TaskType) -> Agent:\n            return a", "C02.SGN-restore"),
     V("evaluate-before-correction", _A,
@@ -130,7 +131,7 @@ VARIANTS = [
       "        cost = np.dot(cost, self._task.objective_weights or [1.0])\n", "C02.R1-root-cost"),
     # twins
     V("twin-fcn-negative-style", _A,
-      "        return self._task.solve(x) if self._task.minmax == TaskType.MIN else -1 * self._task.solve(x)",
+      "        value = self._task.solve(x)\n        if self._task.minmax == TaskType.MIN:\n            return value\n        return [-v for v in value] if isinstance(value, list) else -value",
       "        if self._task.minmax != TaskType.MIN:\n            return np.negative(self._task.solve(x))\n        return self._task.solve(x)", None),
     V("twin-dump-local", _W, _AGENT, "            fields = self._init_agent(position).model_dump()\n            agent = Whale(**fields)\n", None),
 ]
